@@ -40,6 +40,7 @@ RULES = {
     "D5": U.rule_D5,
     "W1": S.rule_W1,
     "W2": S.rule_W2,
+    "D6": S.rule_D6,
     "G3": R.rule_G3,
     "G4": S.rule_G4,
     "G1c": G.rule_G1c,
@@ -53,14 +54,15 @@ RULES = {
 
 PROPS = {
     "C01": {
-        "rules": ["T1", "T2", "A5", "T9p", "T12"],
+        "rules": ["T1", "T2", "A5", "T9p", "T12", "D6"],
         "claim": "Decides the wiring clauses of C01, not the computed values: every operator spelling is wired, through the "
         "five tables lexer -> get_definition -> handle_parse_node -> execute_current_instruction -> perform_*, to the "
         "public runtime function and GarnishNumber method the language table gives it; the three dispatch matches "
         "have no catch-all arm (a missing handler is a compile error); operands reach the host/operation in source order "
         "(A5: at the host boundary left = popped second; T9p: the builder emits every binary construct left operand first, the two "
         "reviewed right-first constructs Pair and ApplyTo having a runtime reader that takes its first pop as the left value); and every child build node inherits its parent's containing-expression entry, only a "
-        "nested expression body and the tree root starting a new one (T12: a reapply re-enters the expression it is written in).",
+        "nested expression body and the tree root starting a new one (T12: a reapply re-enters the expression it is written in); and a call "
+        "returns into its caller's frame (D6: push_frame / pop_frame of BasicGarnishData encode and decode the frame chain inversely).",
     },
     "C02": {
         "rules": ["T3", "T13"],
@@ -161,7 +163,7 @@ PROPS = {
         "placeholders (W1). That each program computes the same result as when built alone is not decided.",
     },
     "C06": {
-        "rules": ["A1", "A6"],
+        "rules": ["A1", "A6", "D6"],
         "claim": "Decides the per-instruction clause of C06: on every Ok-returning path of each of the 55 instruction functions "
         "(path-partitioned abstract interpretation of their MIR against the GarnishData contract, callees summarised bottom-up) the "
         "operand-stack, value-stack and frame deltas and the jump result are the fixed constants of spec/arity.json - binary -2+1, "
@@ -170,7 +172,9 @@ PROPS = {
         "Definition is balanced as an inductive step: its handlers are interpreted under a builder contract, and with every operand "
         "child assumed to leave one value and A1's per-instruction effects, the construct nets +1 (0 for a side-effect block and for "
         "reapply), both arms of a conditional / logical operator join at the same depth, and the `$` stack is unchanged; space and "
-        "comma lists (n-ary) and the bare `;;` are excluded. The dynamic depth of whole programs is not decided.",
+        "comma lists (n-ary) and the bare `;;` are excluded. (D6) the call-frame chain: the Frame* cell BasicGarnishData::push_frame writes for "
+        "each (current frame, current register) state is decoded by pop_frame into the same state, variant by variant (writer/reader "
+        "tables extracted from both matches), so a popped frame returns to its parent. The dynamic depth of whole programs is not decided.",
     },
     "C08": {
         "rules": ["A4", "A5", "A1", "G3", "T2"],
